@@ -56,7 +56,8 @@ TWatchdog ==
   IF CycSeqs(ER) = {}
   THEN EndSet(Late) /\ obs' = [op |-> "watchdog", o |-> NoOne, r |-> NoOne, res |-> "none", cyc |-> <<>>, victim |-> NoOne]
   ELSE \E s \in CycSeqs(ER) : \E v \in Victims(Range(s)) :
-         EndSet(Late \cup {v}) /\ obs' = [op |-> "watchdog", o |-> NoOne, r |-> NoOne, res |-> "none", cyc |-> s, victim |-> v]
+         EndSet(Late \cup {v}) /\ obs' = [op |-> "watchdog", o |-> NoOne, r |-> NoOne, res |-> "none", cyc |-> IF v \in Late THEN <<>> ELSE s,
+                                            victim |-> IF v \in Late THEN NoOne ELSE v]       \* a victim that is late anyway is reported as late, not as a deadlock victim
 Kill(o) == IF o \in active THEN TEnd(o, "kill")
            ELSE Quiet /\ UNCHANGED tvars /\ Out("kill", o, NoOne, "none")
 TNext == \/ \E o \in Ops : TStart(o) \/ TEnd(o, "complete") \/ TEnd(o, "abort") \/ MarkFlag(o) \/ Advance(o) \/ Kill(o)
